@@ -407,77 +407,31 @@ def rule_G(ctx):
     import math as _math
     fn['log'] = _math.log
 
-    class Stamp(orders.PyStub):
-        isa = ('ObsTime',)
+    # observations, positions and timestamps are the repository's own classes (Obs, ENUCoords, ObsTime), interpreted: the order of
+    # instants, copies and equality the sequence operations rely on are those of the code.  An instant t of the case domain is the
+    # timestamp (t + 1) // 2 seconds, plus 500 ms when t is even: t and t + 1 may differ in their milliseconds only.
+    OB = absint.classref(ctx, 'tracklib.core.obs.Obs', fn)
+    EN = absint.classref(ctx, 'tracklib.core.obs_coords.ENUCoords', fn)
+    OT = absint.classref(ctx, 'tracklib.core.obs_time.ObsTime', fn)
 
-        def __init__(self, t):
-            self.t = t
-            self.zone = 0
+    def Stamp(t):
+        s_ = (t + 1) // 2
+        return OT(2020, 1, 1, 0, s_ // 60, s_ % 60, 500 if t % 2 == 0 else 0)
 
-        def toAbsTime(self):
-            return float(self.t)
+    def tval(ts):
+        if not isinstance(ts, orders.Obj):
+            return repr(ts)
+        f_ = ts.fields
+        s_ = f_['min'] * 60 + f_['sec']
+        if (f_['year'], f_['month'], f_['day'], f_['hour']) != (2020, 1, 1, 0) or f_['ms'] not in (0, 500):
+            return ('altered', f_['year'], f_['month'], f_['day'], f_['hour'], f_['min'], f_['sec'], f_['ms'])
+        return 2 * s_ - 1 if f_['ms'] == 0 else 2 * s_
 
-        def copy(self):
-            return Stamp(self.t)
-
-        def __eq__(self, o):
-            return isinstance(o, Stamp) and o.t == self.t
-
-        def __ne__(self, o):
-            return not self.__eq__(o)
-
-        def __lt__(self, o):
-            return self.t < o.t
-
-        def __le__(self, o):
-            return self.t <= o.t
-
-        def __gt__(self, o):
-            return self.t > o.t
-
-        def __ge__(self, o):
-            return self.t >= o.t
-
-        def __sub__(self, o):
-            return float(self.t - o.t)
-
-        def __hash__(self):
-            return hash(self.t)
-
-        def __repr__(self):
-            return 't=%s' % self.t
-    Stamp.__name__ = Stamp.__qualname__ = 'ObsTime'
-    fn['ObsTime'] = Stamp
-    fn['__globals__']['ObsTime'] = Stamp
-
-    class Pos(orders.PyStub):
-        isa = ('ENUCoords',)
-
-        def __init__(self, k):
-            self.k = k
-
-        def copy(self):
-            return Pos(self.k)
-
-        def __eq__(self, o):
-            return isinstance(o, Pos) and o.k == self.k
-
-        def __hash__(self):
-            return hash(self.k)
-
-    class O(orders.PyStub):
-        isa = ('Obs',)
-
-        def __init__(self, k, t):
-            self.k = k
-            self.position = Pos(k)
-            self.timestamp = Stamp(t)
-            self.features = [('f', k)]
-
-        def copy(self):
-            o = O(self.k, self.timestamp.t)
-            o.features = list(self.features)
-            return o
+    def O(k, t):
+        o = OB(EN(float(k), 0.0, 0.0), Stamp(t))
+        o.fields['k'] = k
+        o.fields['features'] = [('f', k)]
+        return o
 
     def mk(times, first=0):
         t = T([O(first + k, tm) for k, tm in enumerate(times)], 'u', 't')
@@ -490,7 +444,7 @@ def rule_G(ctx):
     def snap(t):
         if not isinstance(t, orders.Obj) or '_Track__POINTS' not in t.fields:
             return None
-        return [(o.k, o.timestamp.t, o.position.k, tuple(o.features)) for o in t.fields['_Track__POINTS']]
+        return [(o.fields.get('k'), tval(o.fields.get('timestamp')), o.fields['position'].fields['E'] if isinstance(o.fields.get('position'), orders.Obj) else repr(o.fields.get('position')), tuple(o.fields['features'])) for o in t.fields['_Track__POINTS']]
 
     def tags(t):
         s_ = snap(t)
@@ -675,7 +629,7 @@ def rule_G(ctx):
         dk = [k for k in t.fields if 'analyticalFeaturesDico' in k][0]
         t.fields[dk] = {nm: j for j, nm in enumerate(names)}
         for o in t.fields['_Track__POINTS']:
-            o.features = [(nm, o.k) for nm in names]
+            o.fields['features'] = [(nm, o.fields['k']) for nm in names]
         return t
     for n1, n2 in ((['f', 'g'], ['g', 'f']), (['f', 'g'], ['f', 'g']), (['f', 'g', 'h'], ['h', 'f', 'g']), (['f'], ['g']), (['f', 'g'], ['f']), (['f'], ['f', 'g'])):
         src, other = mk_named([1, 2, 3], n1, 0), mk_named([4, 5], n2, 100)
